@@ -175,6 +175,15 @@ func (u *Unit) build() {
 	if u.spec != nil {
 		for _, r := range fr.rets {
 			env := u.specEnvForUnit(r.st, u.entrySt, r.vals)
+			// source locals visible at the return point may be named in postconditions (ghost use)
+			locals := map[string]SVal{}
+			env.allowUndefined = true
+			fr.localNames(r.blk, true, r.st, locals)
+			for k, v := range locals {
+				if _, taken := env.names[k]; !taken {
+					env.names[k] = v
+				}
+			}
 			for _, en := range u.spec.Ensures {
 				t, err := env.evalBool(en.E)
 				if err != nil {
@@ -235,7 +244,11 @@ func (u *Unit) solveAll(obls []*Obligation, active map[string]bool) {
 			defer wg.Done()
 			sem <- struct{}{}
 			defer func() { <-sem }()
-			r := Solve(u.script(o, active), nil, u.eng.timeoutS, u.eng.requireAll)
+			to := u.eng.timeoutS
+			if o.Auto && to > 2 {
+				to = 2 // automatic candidates are optional: do not wait for them
+			}
+			r := Solve(u.script(o, active), nil, to, u.eng.requireAll && !o.Auto)
 			o.Status, o.Solver, o.Ms, o.Output = r.Status, r.Solver, r.Ms, r.Output
 		}()
 	}
